@@ -18,6 +18,7 @@ func init() {
 		Assumptions: []string{"Bus.Send delivers each event once to each live listener in order (C10)"},
 		Run:         runC04,
 		Controls: []Control{
+			{Name: "value-stores-time-before-computing-it", File: "pkg/resource/value.go", Old: "\t\t\tchangeTime = request.updateTime(r.clock)\n\t\t\tr.changeTime = changeTime\n", New: "\t\t\tr.changeTime = changeTime\n\t\t\tchangeTime = request.updateTime(r.clock)\n", Expect: "this write's time"},
 			{Name: "revert-F60-pullid-last-seed-from-collection", File: "pkg/resource/collection.go", Old: "LastSeedValue: change.SeedValue}", New: "LastSeedValue: change.LastSeedValue}", Expect: "R04.10"},
 			{Name: "send-twice", File: "pkg/resource/collection.go", Old: "\t\tNewValue:   newValue,\n\t})\n\treturn newValue, nil", New: "\t\tNewValue:   newValue,\n\t})\n\tc.bus.Send(context.TODO(), &CollectionChange{Id: id})\n\treturn newValue, nil", Expect: "R04.1"},
 			{Name: "always-update", File: "pkg/resource/collection.go", Old: "\t\tchangeType = types.ChangeType_ADD\n\t\toldValue = nil", New: "\t\toldValue = nil", Expect: "R04.2"},
@@ -281,6 +282,34 @@ func r043(c *an.Ctx) {
 				}
 				// the value (or item) and its time are written together
 				c.Check(all, rule, name+"|every save records its change time", st.Pos(), "", "the stored change time is only updated on some paths of the save callback: a write can leave a stale time behind, which a later seed reports instead of the write's time")
+				// ... and what is stored is this write's time: at the store, the value is the result of
+				// WriteRequest.updateTime(clock) computed before it in the same callback (not the variable's previous content)
+				isTime := true
+				var rs []ssa.Value
+				if ld, isLoad := st.Val.(*ssa.UnOp); isLoad && ld.Op == token.MUL {
+					stores, fromEntry := an.ReachingStores(ld)
+					if fromEntry {
+						isTime = false
+					}
+					for _, s0 := range stores {
+						rs = append(rs, s0.Val)
+					}
+				} else {
+					rs = append(rs, st.Val)
+				}
+				for _, v := range rs {
+					okv := false
+					for _, s0 := range an.Sources(v) {
+						if call, isCall := s0.(*ssa.Call); isCall && an.CalleeName(call) == upq {
+							okv = true
+						}
+					}
+					if !okv {
+						isTime = false
+					}
+				}
+				c.Check(isTime && len(rs) > 0, rule, name+"|the stored change time is this write's time", st.Pos(), "stored = WriteRequest.updateTime(clock) of this save",
+					"the change time is stored before this write's time has been computed (or from something else): the stored time is the previous content of the variable - the zero time on a first write - so a later subscriber's seed reports a different instant than the event of the same write")
 			})
 		}
 		for _, s := range an.CallsTo(fn, busSend) {
